@@ -17,6 +17,8 @@ def main():
     for d in dirs:
         meta_p = os.path.join(d, "meta.json")
         meta = json.load(open(meta_p))
+        d = os.path.abspath(d)
+        meta_p = os.path.join(d, "meta.json")
         patch = os.path.join(d, "patch.diff")
         r = sh(["git", "-C", REPO, "apply", patch])
         if r.returncode != 0:
